@@ -32,7 +32,7 @@ SPEC = {
         'cbor inputs holding a tag 4 / 5 head (decimal fraction, bigfloat: not modelled by Wire/Cbor.v) are not written as model cases', 'msgpack model cases run with MapValueReset=true (the wire model assumption); repeated map keys are outside the cbor/simple/binc models and not compared',
     ],
     'trusted_extra': ['modelled, not verified: the four wire models; decInferLen / usableByteSlice / maxInitLen as transcribed by hand in C02/Alloc.v (the translator does not handle the local const block of decInferLen) and tied by the leaf stream through the hook VerifC02DecInferLen / VerifC02UsableByteSliceLen; GC, real memory, wall time and the recover at the Decode boundary are runtime'],
-    'harness_timeout': {'quick': 400, 'thorough': 2400},
+    'harness_timeout': {'quick': 1500, 'thorough': 5400},
 }
 
 
